@@ -9,6 +9,11 @@ Level `proof`, precisely:
   * TIE to the code on every run: the real `socketio.Server` under the deterministic proxy scheduler
     (harness/sched_threads.py), ALL interleavings of 2 (quick) / 3 (thorough; modulo commutation of
     declared-independent accesses) terminating actions, each compared with `Sched.run false`.
+The same with the server's client manager being a `PubSubManager` (in-memory subclass of harness/world_pubsub.py,
+one host): `disconnect()` then goes through `PubSubManager.can_disconnect` (own `is_connected` test, local
+re-submission `_handle_disconnect` -> `server.disconnect(ignore_queue=True)` for a sid it does not consider
+connected: sub-steps of the model's `check`), and a further terminating action exists: `queue`, a `disconnect`
+message for the sid arriving on the channel and applied by the listener thread (model task `api`).
 Gate-serial schedules must satisfy the property on the implementation (else VIOLATION).
 Gate-overlapping schedules that fail it with the predicted shapes are the known finding
 `gate-overlap` (DESIGN §6 F6); inside that region only the oracle is evaluated.
@@ -190,8 +195,38 @@ def side_configs(thorough):
     return out
 
 
+PMAIN = ('api', 'client', 'lost', 'queue')
+
+
+def pubsub_configs(thorough):
+    """server with a PubSubManager.  -> (exhaustive, modulo declared independence, exhaustive with nested pre-emption)"""
+    def cfg(acts, others=False, **kw):
+        return dict({'actions': list(acts), 'others': others, 'manager': 'pubsub'}, **kw)
+    pairs = [p for p in itertools.combinations_with_replacement(PMAIN, 2)
+             if p not in (('lost', 'lost'), ('queue', 'queue'))]
+    if not thorough:
+        full = [cfg(p) for p in pairs if 'lost' not in p and ('api' in p or 'queue' in p)]
+        red = [cfg(p) for p in pairs if 'lost' in p and ('api' in p or 'queue' in p)]
+        return full, red, [cfg(('queue', 'client'), nested=True)]
+    full = [cfg(p, o) for p in pairs for o in (False, True)]
+    full += [cfg((a, b)) for a in ('api', 'queue') for b in OTHER]
+    nested = [cfg(p, o, nested=True) for p in pairs if 'lost' not in p for o in (False, True)]
+    red = [cfg((a, 'lost'), o, nested=True) for a in ('api', 'queue') for o in (False, True)]
+    return full, red, nested
+
+
+def pubsub_triple_configs():
+    out = []
+    for tr in itertools.combinations_with_replacement(PMAIN, 3):
+        if tr.count('lost') > 1 or tr.count('queue') > 1 or not ('api' in tr or 'queue' in tr):
+            continue
+        out.append({'actions': list(tr), 'others': False, 'manager': 'pubsub'})
+    return out
+
+
 def cfg_key(cfg, reduced=False):
-    return '+'.join(cfg['actions']) + ('/shared-ns' if cfg['others'] else '') + \
+    return '+'.join(cfg['actions']) + ('/pubsub' if cfg.get('manager') == 'pubsub' else '') + \
+        ('/shared-ns' if cfg['others'] else '') + \
         ('/side:' + '+'.join(cfg['side']) if cfg.get('side') else '') + \
         ('/nested' if cfg.get('nested') else '') + ('/reduced' if reduced else '')
 
@@ -215,6 +250,18 @@ def judge(ctx, cfg, obs, m, stats, reduced):
            'oracle': [f[1] for f in fails], 'correspondence': diffs}
     stats['runs'] += 1
     ctx.count('actions:' + cfg_key(cfg, reduced))
+    if cfg.get('manager') == 'pubsub':
+        stats['pubsub_runs'] += 1
+        if not obs['overlap']:
+            stats['pubsub_serial'] += 1
+        if 'queue' in cfg['actions']:
+            stats['pubsub_queue'] += 1
+        if obs['published']:
+            # can_disconnect() did not consider the sid connected: re-submitted locally and published
+            stats['pubsub_resubmitted'] += 1
+            if obs['published'] != [('disconnect', '/', True)] * len(obs['published']):
+                ctx.violation('oracle', 'what reached the channel is not a disconnect request for the sid: %r'
+                              % (obs['published'],), rep)
     if obs['overlap']:
         stats['overlap'] += 1
         if not diffs:
@@ -277,7 +324,8 @@ def run(ctx):
     C.build_driver('sched')
     stats = {'runs': 0, 'serial': 0, 'overlap': 0, 'overlap_failing': 0, 'overlap_model_agrees': 0, 'shapes': {},
              'example': None, 'per_config': {}, 'nontrivial': set(), 'samples': [], 'outcomes': {},
-             'nested_runs': 0, 'nested_serial': 0}
+             'nested_runs': 0, 'nested_serial': 0,
+             'pubsub_runs': 0, 'pubsub_serial': 0, 'pubsub_queue': 0, 'pubsub_resubmitted': 0}
     run_configs(ctx, pair_configs(ctx.thorough), stats)
     pairs = stats['runs']
     # nested pre-emption (inside manager.disconnect / can_disconnect)
@@ -287,6 +335,10 @@ def run(ctx):
     run_configs(ctx, nred, stats, indep=t.independent)
     run_configs(ctx, side_configs(ctx.thorough), stats, indep=t.independent, serial_only=True)
     ctx.coverage['side_action_schedules'] = sum(v for k, v in stats['per_config'].items() if '/side:' in k)
+    pfull, pred, pnested = pubsub_configs(ctx.thorough)
+    run_configs(ctx, pfull, stats)
+    run_configs(ctx, pred, stats, indep=t.independent)
+    run_configs(ctx, pnested, stats)
     nested_pairs = stats['runs'] - pairs
     pairs = stats['runs']
     exhaustive3 = None
@@ -310,6 +362,7 @@ def run(ctx):
         ctx.coverage['independence_cross_validated_on_pair_configs'] = checked
         run_configs(ctx, triple_configs(), stats, indep=t.independent)
         run_configs(ctx, nested_triple_configs(), stats, indep=t.independent)
+        run_configs(ctx, pubsub_triple_configs(), stats, indep=t.independent)
         exhaustive3 = stats['runs'] - pairs
         ctx.assumptions.append(
             'three-action enumeration: complete modulo commutation of accesses declared independent in '
@@ -334,6 +387,23 @@ def run(ctx):
         'an action on the other namespace modulo the declared independence')
     if exhaustive3 is not None:
         cov['triple_schedules_modulo_independence'] = exhaustive3
+    cov['pubsub_manager_schedules'] = stats['pubsub_runs']
+    cov['pubsub_manager_gate_serial'] = stats['pubsub_serial']
+    cov['pubsub_manager_with_queue_message'] = stats['pubsub_queue']
+    cov['pubsub_manager_disconnect_resubmitted_locally'] = stats['pubsub_resubmitted']
+    cov['pubsub_manager_scope'] = (
+        'the same server with a PubSubManager (in-memory subclass, one host, initialised by the first connection), all '
+        'manager and transport calls through the same proxies; terminating actions {disconnect(), client DISCONNECT, '
+        'transport loss' + (', disconnect()/DISCONNECT of the other namespace' if ctx.thorough else '') + ', queue = a '
+        'disconnect message for the sid from another host applied by the listener thread (real PubSubManager._thread(), at '
+        'most one per schedule: a host has one listener)}: ' +
+        ('every pair exhaustively (sole member / shared namespace), pairs without a loss also with nested pre-emption, '
+         'triples containing disconnect() or queue modulo declared independence' if ctx.thorough else
+         'pairs containing disconnect() or queue: exhaustively without a transport loss, modulo declared independence with '
+         'one; queue+DISCONNECT also with nested pre-emption') +
+        '. PubSubManager.can_disconnect and the is_connected of the locally re-submitted request '
+        '(server.disconnect(ignore_queue=True)) are sub-steps of the model\'s check; `queue` is a model task `api`; an '
+        'exception the listener contains counts as raised by the task')
     cov['gate_serial_schedules'] = stats['serial']
     cov['gate_overlapping_schedules'] = stats['overlap']
     cov['gate_overlapping_failing'] = stats['overlap_failing']
@@ -371,8 +441,9 @@ def replay(ctx, r):
         return 0
     obs = t.replay_schedule(rep['cfg'], rep['sched'])
     m = C.batch('sched', [t.model_line(obs)])[0]
-    print('implementation:', json.dumps({k: obs[k] for k in ('actions', 'others', 'sched', 'labels', 'calls', 'raised',
-                                                               'swallowed', 'residue', 'overlap')}, default=str))
+    print('implementation:', json.dumps({k: obs[k] for k in ('actions', 'others', 'manager', 'sched', 'labels', 'calls', 'raised',
+                                                               'swallowed', 'listener_contained', 'published', 'residue',
+                                                               'overlap')}, default=str))
     print('model:         ', json.dumps(m))
     fails = oracle(obs)
     print('oracle:        ', 'holds' if not fails else [f[1] for f in fails])
